@@ -135,6 +135,7 @@ func checkC15(c *Ctx) {
 	}
 	checkURISafeSet(c, e)
 	ruleSpecBounds(c)
+	ruleSpanScan(c)
 	c.MinCount("BSET", len(classifierOracles))
 }
 
@@ -569,5 +570,82 @@ func ruleSpecBounds(c *Ctx) {
 		}
 		sort.Strings(all)
 		c.Check(got >= sb.count, "SPEC-BOUNDS", key, fn.Pos(), fmt.Sprintf("%s — expected %d comparison(s) with threshold %s%d, found %d (thresholds present: %s)", sb.src, sb.count, sb.dir, sb.T, got, strings.Join(all, " ")))
+	}
+}
+
+// SPAN-SCAN: a loop that walks a Span walks all of it.
+func ruleSpanScan(c *Ctx) {
+	c.Rule("SPAN-SCAN", "In package commonmark, a counting loop whose upper bound is the End of a Span value starts at that same span's Start (not at Start plus a positive constant): the recognisers use such loops to validate every byte of a range (e.g. 'the info string after a backtick fence may not contain a backtick'), and a scan that starts one byte late accepts a line the specification rejects.")
+	p := c.P
+	spanField := func(v ssa.Value) (base ssa.Value, field string, ok bool) {
+		switch x := v.(type) {
+		case *ssa.Field:
+			if typeName(x.X.Type()) == "Span" {
+				_, f := fieldInfo(x)
+				return x.X, f, true
+			}
+		case *ssa.UnOp:
+			if x.Op == token.MUL {
+				if fa, isFA := x.X.(*ssa.FieldAddr); isFA {
+					if tn, f, _ := fieldAddrInfo(fa); tn == "Span" {
+						return fa.X, f, true
+					}
+				}
+			}
+		}
+		return nil, "", false
+	}
+	sameBase := func(a, b ssa.Value) bool {
+		if a == b {
+			return true
+		}
+		// two loads of the same field path (no CSE)
+		fa, ok1 := a.(*ssa.FieldAddr)
+		fb, ok2 := b.(*ssa.FieldAddr)
+		if ok1 && ok2 && fa.Field == fb.Field {
+			return fa.X == fb.X
+		}
+		return sameValue(a, b)
+	}
+	n := 0
+	for _, fn := range p.Funcs {
+		if fn.Pkg != p.CMs {
+			continue
+		}
+		for li, l := range naturalLoops(fn) {
+			iff := blockIf(l.header)
+			if iff == nil {
+				continue
+			}
+			bo, ok := iff.Cond.(*ssa.BinOp)
+			if !ok || bo.Op != token.LSS {
+				continue
+			}
+			ph, ok := bo.X.(*ssa.Phi)
+			if !ok || ph.Block() != l.header {
+				continue
+			}
+			eb, ef, ok := spanField(bo.Y)
+			if !ok || ef != "End" {
+				continue
+			}
+			for i, pr := range l.header.Preds {
+				if l.body[pr] {
+					continue
+				}
+				init := ph.Edges[i]
+				base, k := splitAdd(init)
+				sb, sf, ok := spanField(base)
+				if !ok || sf != "Start" || !sameBase(sb, eb) {
+					continue
+				}
+				n++
+				key := fmt.Sprintf("%s:loop#%d", shortFuncName(fn), li+1)
+				c.Check(k == 0, "SPAN-SCAN", key, l.header.Instrs[0].Pos(), fmt.Sprintf("the loop over the span starts %d byte(s) after the span's start", k))
+			}
+		}
+	}
+	if n < 1 {
+		c.Undecided("SPAN-SCAN", "instance-count", token.NoPos, "no loop over a Span found (parseCodeFence's info-string check is one)")
 	}
 }
